@@ -161,7 +161,11 @@ func (fs *faultStream) Write(p []byte) (int, error) {
 }
 
 func outNil() Val          { return VL{VT("nil")} }
-func outErr(err error) Val { return VL{VT("err"), verr(err)} }
+// lastOutErr: the error of the most recent outErr call (single-threaded drivers only); a producer's
+// afterStep hook can classify it further (C04: storage.IsNotFound) and must reset it
+var lastOutErr error
+
+func outErr(err error) Val { lastOutErr = err; return VL{VT("err"), verr(err)} }
 func outOf(err error) Val {
 	if err != nil {
 		return outErr(err)
@@ -552,6 +556,12 @@ func runStoreImplX(work string, kind uint64, o wOpts, roots []cid.Cid, faults []
 			out = outOf(s.bs.Close())
 		case "discard":
 			s.bs.Discard()
+			out = outNil()
+		case "delete": // ReadWrite.DeleteBlock: unsupported, always an error
+			c, _ := keyOf(1)
+			out = outOf(s.bs.DeleteBlock(ctx, c))
+		case "hashonread": // ReadWrite.HashOnRead: a no-op
+			s.bs.HashOnRead(uint64(op[1].(VN)) != 0)
 			out = outNil()
 		case "reopen":
 			o2 := wOptsFromVal(op[1])
